@@ -384,6 +384,7 @@ def jobs(tier):
             for agg in ("sorted", "min", "max", "nlargest", "nsmallest"):
                 add("h_agg", agg=agg, N=3, fl=fl, b1=True, ffl="obj")
                 add("h_agg", agg=agg, N=2, fl=fl, b1=True, ffl="defaw")
+                add("h_agg", agg=agg, N=2, fl=fl, b1=True, ffl="fobj")
         if fl != "list":
             for agg in ("nlargest", "nsmallest", "sorted", "min", "max"):
                 add("h_agg", agg=agg, N=3, fl=fl, b1=True, allbad=True)
